@@ -55,8 +55,7 @@ Definition unmodelled_stream (k : bool * (universe * gen_case)) : bool := modell
 From XV Require Import Spec.MetaSpec Model.Builder Model.BuilderCorr.
 
 Definition spec_guard (D : mdesc) (pns : cls -> option str) (v : value) : bool :=
-  wf_desc D && typed_value D (S (sdepth v)) v && cache_consistent D pns (S (sdepth v)) None None v
-  && inherit_consistent D (S (sdepth v)) None None None v && token_lists_ok D (S (sdepth v)) v.
+  wf_desc D && typed_value D (S (sdepth v)) v && cache_consistent D pns (S (sdepth v)) None v.
 
 (* hostile?, exported universe, description, recorded parent namespaces, the run *)
 Definition full_case := (bool * universe * mdesc * list (cls * option str) * gen_case)%type.
@@ -87,14 +86,12 @@ Definition fc_theorem (x : full_case) : bool :=
   negb (fc_in_guard x)
   || spec_matches D k (generate (gc_ignore k) (conv_of_table (gc_table k)) (universe_of D (pns_of_list pns)) (gc_value k)).
 
-(* which guard clause excludes the case: 1 wf_desc 2 typed 3 cache 4 token lists 5 inheritance *)
+(* which guard clause excludes the case: 1 wf_desc 2 typed 3 cache *)
 Definition fc_guard_clauses (x : full_case) : list N :=
   let '(_, _, D, pns, k) := x in
   let v := gc_value k in
   (if wf_desc D then [] else [1%N]) ++ (if typed_value D (S (sdepth v)) v then [] else [2%N])
-  ++ (if cache_consistent D (pns_of_list pns) (S (sdepth v)) None None v then [] else [3%N])
-  ++ (if token_lists_ok D (S (sdepth v)) v then [] else [4%N])
-  ++ (if inherit_consistent D (S (sdepth v)) None None None v then [] else [5%N]).
+  ++ (if cache_consistent D (pns_of_list pns) (S (sdepth v)) None v then [] else [3%N]).
 
 (* the theorem's conclusion alone (no guard): the MODEL on the MODEL's universe against the specification *)
 Definition fc_model_matches (x : full_case) : bool :=
